@@ -93,9 +93,9 @@ RULE = ("thorough, exhaustive: FillRequest.__init__ for every subset of {run,fil
         "histories on the adapter that keeps generator objects (Python reference) against Eval.atRequest of the model. "
         "quick (<= 60 s): __init__ with buffer flags in {None,True}^2; run for all flows 0..8 (1-result "
         "element) and lengths 0,4,7,8 (variants); every subset of request points for flows 0..6 (1-result element) plus "
-        "12000 seeded samples of the rest of the thorough fill/request scope; histories of length <= 3 exhaustively + 8000 "
-        "random longer ones + 4000 on the generator-keeping adapter; Split for all flows 0..8 and all three "
-        "forms (1-result, yield_on_remainder off), lengths 0,5,8 as element otherwise; 15% of the Split/LenaStopFill cases. "
+        "9000 seeded samples of the rest of the thorough fill/request scope; histories of length <= 3 exhaustively + 6000 "
+        "random longer ones + 3000 on the generator-keeping adapter; Split for all flows 0..8 as element and lengths "
+        "0,3,5,7,8 as tuple / FillRequestSeq (1-result, yield_on_remainder off), lengths 0,5,8 as element otherwise; 15% of the Split/LenaStopFill cases. "
         "Non-trivial: at least one result yielded or an exception.")
 CASE_TIMEOUT = 5
 
@@ -1061,14 +1061,14 @@ def gen_cases(ctx):
                 if stop is not None and stop >= sum(1 for o in ops if isinstance(o, int)):
                     continue
                 yield xcase(cfg, ops, stop, stores)
-    for _ in range(30000 if thorough else 8000):
+    for _ in range(30000 if thorough else 6000):
         stop, stores = rng.choice(_STOPS)
         ops = random_history(4, 14)
         if rng.random() < 0.5:
             ops.append(None)
         yield xcase(rng.choice(xconfigs), ops, stop, stores)
     # the adapter that keeps generator objects (Python reference), against Eval.atRequest of the model
-    for _ in range(20000 if thorough else 4000):
+    for _ in range(20000 if thorough else 3000):
         kind, k, reset, n, buf, yor = rng.choice(xconfigs)
         c = xcase((kind, k, reset, n, "bo" if rng.random() < 0.8 else buf, yor), random_history(3, 14) + [None], None, False,
                   ev="request")
@@ -1085,6 +1085,8 @@ def gen_cases(ctx):
                                 for m in list(range(1, 10)) + [1000, None]:
                                     for L in range(0, 9):
                                         if not thorough and (k == 2 or yor) and (L not in (0, 5, 8) or form != "el"):
+                                            continue
+                                        if not thorough and form != "el" and L in (1, 2, 4, 6):
                                             continue
                                         c = _base(kind, k, False, True, n, buf, reset, yor)
                                         c.update(op="split", form=form, m=m, n=L)
@@ -1112,7 +1114,7 @@ def gen_cases(ctx):
                                     rest.append((kind, k, mut, hr, reset, n, buf, yor, L))
     # (thorough: `rest` = flows of length 8 for the 2-result / state-changing elements)
     if rest:
-        for _ in range(20000 if thorough else 12000):
+        for _ in range(20000 if thorough else 9000):
             kind, k, mut, hr, reset, n, buf, yor, L = rng.choice(rest)
             c = _base(kind, k, mut, hr, n, buf, reset, yor)
             c.update(op="ops", n=L, mask=rng.randrange(1 << L))
